@@ -38,10 +38,13 @@ def mk_ops():
     from pymablock.number_ordered_form import LadderOp
 
     return dict(a=BosonOp("a"), b=BosonOp("b"), c=FermionOp("c"), d=FermionOp("d"), e=FermionOp("e"),
-                s=pauli.SigmaMinus("s"), l=LadderOp("l"))
+                s=pauli.SigmaMinus("s"), l=LadderOp("l"),
+                # operators of another species that share the *name* of a boson / ladder mode
+                A=FermionOp("a"), L=pauli.SigmaMinus("l"))
 
 
-MODESETS = [("a",), ("l",), ("s",), ("c",), ("a", "b"), ("c", "d"), ("c", "d", "e"), ("a", "c"), ("s", "c"), ("a", "l", "s", "c")]
+MODESETS = [("a",), ("l",), ("s",), ("c",), ("a", "b"), ("c", "d"), ("c", "d", "e"), ("a", "c"), ("s", "c"), ("a", "l", "s", "c"),
+            ("a", "A"), ("l", "L")]
 LETTERS = ["a", "a+", "Na", "c", "c+", "d", "d+", "e", "e+", "s", "s+", "l", "l+", "Nl"]
 
 
@@ -85,6 +88,9 @@ def cases(tier, seed):
     # (iii) expression families
     for ms in MODESETS:
         out.append(dict(kind="family", modes=list(ms)))
+    # (iv) functions, negative and fractional powers of number-conserving expressions written in equivalent ways
+    for mode in ("a", "l", "c", "s"):
+        out.append(dict(kind="functions", mode=mode))
     return out
 
 
@@ -179,6 +185,65 @@ def run_case(case):
     sample = {k: (v[:2] if isinstance(v, list) and k in ("words", "pairs", "triples") else v) for k, v in case.items()}
     return dict(violations=[dict(what=w, key=None) for w in V[:4]], nontrivial=nt,
                 outcome="ok" if not V else "violation", stats=stats, sample=sample)
+
+
+def run_functions(case):
+    """f(z) for z a number-conserving expression: the conversion either refuses (ValueError) or denotes f(z)."""
+    import sympy
+    from sympy.physics.quantum import Dagger
+
+    from pymablock.number_ordered_form import NumberOperator, NumberOrderedForm
+
+    ops = mk_ops()
+    x0 = ops[case["mode"]]
+    N0 = NumberOperator(x0)
+    R = sympy.Rational
+    xq = (x0 + Dagger(x0)) / sympy.sqrt(2)
+    pq = sympy.I * (Dagger(x0) - x0) / sympy.sqrt(2)
+    alpha = R(3, 2)
+    arguments = {
+        "N": N0,
+        "x x+": x0 * Dagger(x0),
+        "x+ x + x x+": Dagger(x0) * x0 + x0 * Dagger(x0),
+        "q^2 + p^2": xq**2 + pq**2,
+        "(q^2 + p^2)/2 + 1": (xq**2 + pq**2) / 2 + 1,
+        "displaced": (Dagger(x0) + alpha) * (x0 + alpha) - alpha * (x0 + Dagger(x0)),
+        "N^2 + x+ x": N0**2 + Dagger(x0) * x0,
+    }
+    functions = {
+        "exp(-z/4)": lambda z: sympy.exp(-z / 4),
+        "cos(z/3)": lambda z: sympy.cos(z / 3),
+        "1/(z+1)": lambda z: 1 / (z + 1),
+        "sqrt(z+2)": lambda z: sympy.sqrt(z + 2),
+        "(z+1)**-2": lambda z: (z + 1) ** -2,
+        "x exp(-z/4) x+": lambda z: x0 * sympy.exp(-z / 4) * Dagger(x0),
+        "exp(-z/4) x + h.c.": lambda z: sympy.exp(-z / 4) * x0 + Dagger(x0) * sympy.exp(-z / 4),
+    }
+    sp = Space([x0], D=14)
+    V = []
+    n = refused = 0
+    for an, z in arguments.items():
+        for fn, f in functions.items():
+            if case["mode"] == "l" and fn.startswith("sqrt"):
+                continue  # ladder levels are negative too: the real square root of the numeric model is undefined there
+            expr = f(z)
+            try:
+                want = sp.expr_matrix(expr)
+            except (ValueError, TypeError):
+                continue
+            if not np.isfinite(want[:, sp.interior([3], [3])]).all():
+                continue  # the function has a pole on this mode's spectrum (ladder levels extend to negative integers)
+            try:
+                nof = NumberOrderedForm.from_expr(expr)
+            except ValueError:
+                refused += 1
+                continue
+            n += 1
+            with np.errstate(all="ignore"):
+                msg = cmp_on_interior(sp, sp.nof_matrix(nof), want, [3], [3])
+            if msg:
+                V.append(f"mode {case['mode']}: {fn} with z = {an} converts to {str(nof)[:80]}, which {msg}")
+    return V, dict(products_checked=n, refused=refused), n > 0
 
 
 def run_words(case):
@@ -351,6 +416,8 @@ def run_family(case):
         tsym * x0 + sympy.conjugate(tsym) * Dagger(x0),
         tsym * Dagger(x1) * (N0 + 1) + usym * x0,
         (Dagger(x0) * N0) if ms[0] in "abl" else Dagger(x0) * x1,
+        x0**2 * Dagger(x1) + x1 * Dagger(x0) ** 2,
+        Dagger(x0) ** 3 + x0**3 + N0**2,
     ]
     V = []
     n = 0
